@@ -3,7 +3,12 @@
 (* Leg C for C03.  One trace line per world:                               *)
 (*   in.stores[i]   [frames: <<[ls, chunks]>>, strips, batch]  what store  *)
 (*                  i streamed (label sets as <<name,value>> integer       *)
-(*                  pairs, chunks as [mint, maxt, f, h])                   *)
+(*                  pairs, chunks as [mint, maxt, f, h]); a frame with     *)
+(*                  k = "h" / "w" is a hints / warning message between the *)
+(*                  series; with fail = [kind "after", k] the stream ends  *)
+(*                  with an error after k messages                         *)
+(*   in.strategy    "ABORT", or "WARN" when the world has warning messages *)
+(*                  or a breaking stream                                   *)
 (*   in.without     replica label names the request asked to drop          *)
 (*   in.cfgs[k]     [retr: "lazy"|"eager", buf, rb]: the configurations    *)
 (*                  the world was run through on a real ProxyStore         *)
@@ -24,7 +29,8 @@ Judge(e) ==
        \cup
        (* "The result is the same for lazy and eager retrieval, any buffer size and any response *)
        (* batch size"                                                                            *)
-       (IF \A g \in DOMAIN O : SameResult(O[g].series, O[1].series) THEN {} ELSE {"same-result-in-every-configuration"})
+       (* (judged when no stream breaks: what a broken stream contributes is C06's subject)       *)
+       (IF NoStoreFails(w) => \A g \in DOMAIN O : SameResult(O[g].series, O[1].series) THEN {} ELSE {"same-result-in-every-configuration"})
 
 (* Model conformance (never a verdict): the functional algorithm-level description predicts    *)
 (* the response up to the order of chunks with equal time range.                                *)
